@@ -916,6 +916,20 @@ Section GddSearch.
   Qed.
 End GddSearch.
 
+(* ================================================================================================ *)
+(* read_weather_inputs: the clipped table holds exactly the rows of the window, in their original order *)
+Lemma clip_weather_In {A} (s e : Z) (rows : list (Z * A)) r :
+  In r (clip_weather s e rows) <-> In r rows /\ s <= fst r <= e.
+Proof. unfold clip_weather. rewrite !filter_In, !Z.leb_le. tauto. Qed.
+
+Lemma clip_weather_all {A} (s e : Z) (rows : list (Z * A)) :
+  Forall (fun r => s <= fst r <= e) rows -> clip_weather s e rows = rows.
+Proof.
+  unfold clip_weather. induction 1 as [|r l Hr Hl IH]; [reflexivity|]. cbn [filter].
+  replace (s <=? fst r) with true by (symmetry; apply Z.leb_le; lia). cbn [filter].
+  replace (fst r <=? e) with true by (symmetry; apply Z.leb_le; lia). f_equal. exact IH.
+Qed.
+
 Print Assumptions civil_roundtrip.
 Print Assumptions civil_roundtrip_valid.
 Print Assumptions date_order.
